@@ -33,7 +33,10 @@ HINTS = [
 ]
 # hints mentioning LATER are written with a name that is bound only after the definition
 LATER_HINTS = ['LATER', 'Optional[LATER]', 'List[LATER]', 'LATERG[int]', 'Dict[str, LATER]', 'Union[int, LATER]', 'Tuple[LATER, ...]',
-               'Type[LATER]', 'Sequence[List[LATER]]', 'Optional[LATERG[int]]', 'List[LATERG[UA]]', 'LATERG[LATER]']
+               'Type[LATER]', 'Sequence[List[LATER]]', 'Optional[LATERG[int]]', 'List[LATERG[UA]]', 'LATERG[LATER]',
+               'LATERL', 'Optional[LATERL]', 'Dict[str, LATERL]', 'List[LATERL]']
+# LATERL: a name bound after the definition to a user class deriving from a *parameterised* container
+# (class UIntList(List[int]), metaclass type): right class with wrong items must still be rejected
 # LATERG: a *generic* class bound after the definition and subscripted inside the string ('LaterG[int]')
 
 PLACEMENTS = ['module', 'method', 'nested_method', 'closure', 'closure_in_method', 'class_attr', 'class_nested_attr']
@@ -46,7 +49,7 @@ HEADER = '''{future}
 from typing import *
 from beartype import beartype
 from beartype.vale import IsEqual
-from bearverif.userclasses import UA, UB, UC, UProto, UGenList
+from bearverif.userclasses import UA, UB, UC, UProto, UGenList, UIntList
 _T = TypeVar('_T')
 CALLS = {{}}
 '''
@@ -57,6 +60,7 @@ PROBE_ARG = {
     'Union[int, LATER]': 'UA()', 'Tuple[LATER, ...]': '(UA(),)', 'Type[LATER]': 'UA', 'Sequence[List[LATER]]': '[[UA()]]',
     'LATERG[int]': 'UGenList([1])', 'Optional[LATERG[int]]': 'UGenList([1])', 'List[LATERG[UA]]': '[UGenList([UA()])]',
     'LATERG[LATER]': 'UGenList([UA()])',
+    'LATERL': 'UIntList([1])', 'Optional[LATERL]': 'UIntList([1])', 'Dict[str, LATERL]': '{"a": UIntList([1])}', 'List[LATERL]': '[UIntList([1])]',
 }
 
 
@@ -72,7 +76,7 @@ def module_source(hint, placement, form):
     future = 'from __future__ import annotations' if form in ('future', 'later_future') else ''
     later = form.startswith('later')
     uses_later = 'LATER' in hint
-    text = hint.replace('LATERG', 'LaterG').replace('LATER', 'Later')
+    text = hint.replace('LATERG', 'LaterG').replace('LATERL', 'LaterL').replace('LATER', 'Later')
     if form == 'evaluated':
         ann = text
     elif form in ('string', 'later_string'):
@@ -80,6 +84,8 @@ def module_source(hint, placement, form):
     else:
         ann = text
     define = 'class Later(_ABC):\n    pass\nLater.register(UA)'
+    if 'LATERL' in hint:
+        define += '\nLaterL = UIntList'
     if 'LATERG' in hint:
         define += '\nclass LaterG(_ABC, Generic[_T]):\n    pass\nLaterG.register(UGenList)'
     before = define if (uses_later and not later) else ''
@@ -140,13 +146,13 @@ def module_source(hint, placement, form):
 def cases(tier, seed):
     out = []
     hints = HINTS if tier != 'quick' else HINTS[:10]
-    lhints = LATER_HINTS if tier != 'quick' else LATER_HINTS[:4] + LATER_HINTS[9:10]
+    lhints = LATER_HINTS if tier != 'quick' else LATER_HINTS[:4] + LATER_HINTS[9:10] + LATER_HINTS[12:14]
     for pl in PLACEMENTS:
         for form in FORMS:
             if pl.startswith('class_') and form.startswith('later'):
                 continue
             for h in (lhints if (form.startswith('later') or pl.startswith('class_')) else hints):
-                if pl.startswith('class_') and 'LATERG' in h:
+                if pl.startswith('class_') and ('LATERG' in h or 'LATERL' in h):
                     continue
                 if tier == 'quick' and pl in ('nested_method', 'closure_in_method') and hash((h, form)) % 2:
                     continue
@@ -243,10 +249,29 @@ def run_case(prop, name, spec, confkw, tier, src):
             first.results[id(r)] = r
         d = Discharger(first)
         out.nontrivial = True
-        for prog in ('param', 'return'):
-            pre = [first.guards['param'], second.guards['param']] if prog == 'return' else []
-            oblige(out, d, first, 'C07', f'{prog} guard of the {form} variant differs from the evaluated variant',
-                   pre + [z3.Xor(first.guards[prog], second.guards[prog])], ('c07', prog), dict(src, spec=spec))
+        own_draws = getattr(first.results['wrapper'].ctx, 'own_draws', 0)
+        if own_draws:
+            # the string resolves to a proxy that answers isinstance() with a *sampled* deep check of
+            # its own (its draw is independent of the wrapper's): the two variants cannot agree draw
+            # by draw, so they are held to the same two-sided contract instead -- every object that
+            # fully conforms to the evaluated hint is accepted, every object the O(1) strategy must
+            # reject for the evaluated hint is rejected -- for all draws of both
+            ehint = m_eval.TARGET.__annotations__['x']
+            enode = refsem.parse(ehint)
+            sem = first.sem
+            oblige(out, d, first, 'C07', f'the {form} variant rejects an object that fully conforms to the evaluated hint',
+                   [sem.full(enode, first.x), z3.Not(first.guards['param'])], ('c07', 'param'), dict(src, spec=spec))
+            oblige(out, d, first, 'C07', f'the {form} variant accepts an object that every O(1) check of the evaluated hint must reject',
+                   [sem.mr(enode, first.x), first.guards['param']], ('c07', 'param'), dict(src, spec=spec))
+            oblige(out, d, first, 'C07', f'the evaluated variant itself breaks that contract (harness sanity)',
+                   [z3.Or(z3.And(sem.full(enode, first.x), z3.Not(second.guards['param'])),
+                          z3.And(sem.mr(enode, first.x), second.guards['param']))], ('c07', 'param'), dict(src, spec=spec))
+            out.observations.append(f'deep proxy: {own_draws} independent draw(s); contract obligations used instead of draw-by-draw equivalence')
+        else:
+            for prog in ('param', 'return'):
+                pre = [first.guards['param'], second.guards['param']] if prog == 'return' else []
+                oblige(out, d, first, 'C07', f'{prog} guard of the {form} variant differs from the evaluated variant',
+                       pre + [z3.Xor(first.guards[prog], second.guards[prog])], ('c07', prog), dict(src, spec=spec))
         for sc in first.side['param']:
             oblige(out, d, first, 'C07', f'{sc.kind} reachable at `{sc.where}` in the {form} variant', [sc.cond],
                    ('c07', 'param'), dict(src, spec=spec))
